@@ -344,7 +344,8 @@ func checkLocationParser(c *Ctx, pl *ssa.Function) {
 		c.judge(stt, "TABLE", fl.field+" iff the text contains "+fl.mark, pos, "set under a test for "+fmt.Sprintf("%q", fl.mark), why)
 	}
 	// ARITY
-	var joinStores int
+	var joinStores, joinInLoop int
+	var joinOutside []*ssa.Store
 	for _, f := range fam {
 		ftb := newDeepTB(f)
 		eachInstr(f, func(i ssa.Instruction) {
@@ -384,6 +385,7 @@ func checkLocationParser(c *Ctx, pl *ssa.Function) {
 			stt := holds
 			if !inLoop(st.Block()) {
 				stt = broken
+				joinOutside = append(joinOutside, st)
 				// a recursive descent that parses one operand and recurses on the remainder is also unbounded
 				if v.contains(func(x *Term) bool { return x.Op == "call" && strings.HasSuffix(x.Name, "."+pl.Name()) }) && n <= 1 {
 					stt = unknown
@@ -448,8 +450,21 @@ func checkLocationParser(c *Ctx, pl *ssa.Function) {
 					}
 				}
 			}
+			if inLoop(st.Block()) {
+				joinInLoop++
+			}
+			if stt == broken {
+				return // judged after all sites are known: a flush of the last operand after the loop is fine
+			}
 			c.judge(stt, "ARITY", fmt.Sprintf("join operands appended in a loop (%s)", c.W.pos(st.Pos())[strings.LastIndex(c.W.pos(st.Pos()), "/")+1:]), st.Pos(), "operands are appended in a loop over the operand list", fmt.Sprintf("this branch appends a fixed number of operands (%d) outside any loop: joins with more operands, or with a parenthesised operand that is not first, are mis-parsed or panic", n))
 		})
+	}
+	for _, st := range joinOutside {
+		stt := broken
+		if joinInLoop > 0 {
+			stt = holds // operands are appended in a loop; this site flushes the last one after it
+		}
+		c.judge(stt, "ARITY", fmt.Sprintf("join operands appended in a loop (%s)", c.W.pos(st.Pos())[strings.LastIndex(c.W.pos(st.Pos()), "/")+1:]), st.Pos(), "operands are appended in a loop over the operand list (a final flush after the loop included)", "this branch appends a fixed number of operands outside any loop and no other site appends them in a loop: joins with more operands, or with a parenthesised operand that is not first, are mis-parsed or panic")
 	}
 	if joinStores == 0 {
 		c.undecided("ARITY", "join case", pl.Pos(), "no SubLocations built under a test for the join keyword found")
